@@ -83,6 +83,22 @@ Theorem C18_excess_leads_to_penalty : forall lim pen pre proc peer,
   snd (rrun (new_limiter lim pen) (pre ++ [RMsg proc peer])) = [(proc, peer, pen proc)].
 Proof. exact excess_leads_to_penalty. Qed.
 
+(* ... per peer AND per procedure under arbitrarily interleaved traffic: the penalties of a (procedure, peer) pair in ANY trace
+   (other peers and procedures sending, tripping the limiter, being penalised in between) are exactly the penalties of that
+   pair's own messages and the resets; and n messages of one pair without a reset in between, starting from a counter c0 within
+   the limit, yield exactly (c0 + n) / (limit + 1) penalties of that procedure's amount *)
+Theorem C18_excess_penalised_per_peer_and_procedure : forall es proc peer r r',
+  cnt r proc peer = cnt r' proc peer -> limit r = limit r' -> penalty r = penalty r' ->
+  filter (pen_of proc peer) (snd (rrun r es)) = snd (rrun r' (project proc peer es)).
+Proof. exact pairwise_independent. Qed.
+
+Theorem C18_single_pair_penalty_count : forall n r proc peer, 0 <= cnt r proc peer <= limit r proc ->
+  let '(r', ps) := rrun r (repeat (RMsg proc peer) n) in
+  exists c, cnt r' proc peer = c /\ 0 <= c <= limit r proc /\
+            cnt r proc peer + Z.of_nat n = Z.of_nat (length ps) * (limit r proc + 1) + c /\
+            Forall (fun x => x = (proc, peer, penalty r proc)) ps.
+Proof. exact single_pair_count. Qed.
+
 Theorem C18_rate_excess_penalty_applied : forall ahp known m pid ip proc now, known proc = true ->
   limit (rl m) proc < cnt (rl m) proc pid + 1 ->
   score_of (gt (nd (on_message ahp known m pid ip (WellFormed proc) now))) ip = score_of (gt (nd m)) ip + penalty (rl m) proc.
